@@ -424,7 +424,8 @@ def gen(rng, tier):
 # adapters
 
 def arr(p):
-    return np.array(p, dtype=np.float64)
+    # what is handed to the library: pooled inside history pairs, respelled as integers in the integer-dtype runs
+    return shcopy(np.array(p, dtype=np.float64))
 
 
 def opt(r):
